@@ -58,6 +58,10 @@ type c05NegoOut struct {
 	E2EAdv   []int64  `json:"e2e_adv,omitempty"`
 	E2EAdvMs int64    `json:"e2e_adv_ms,omitempty"`
 	E2EState string   `json:"e2e_state,omitempty"`
+	// the same application connects a second time (restart, reconnect): the negotiation must come out as the first time
+	AgainRun  bool   `json:"again_run"`
+	AgainSame bool   `json:"again_same"`
+	AgainNote string `json:"again_note,omitempty"`
 }
 
 type c05Handler struct{ info *AppInfo }
@@ -192,6 +196,42 @@ func c05RunNego(c c05Nego, k int) (out c05NegoOut) {
 		}
 		hv := NewHarvest(time.Now(), app.connectReply.EventHarvestConfig.EventConfigs)
 		out.Caps = c05Caps(hv)
+	}()
+	if out.Panic != "" || out.Unsafe {
+		return
+	}
+	// second connect of the same application (its description lives as long as the daemon does)
+	func() {
+		defer func() {
+			if r := recover(); r != nil {
+				out.AgainRun, out.AgainSame, out.AgainNote = true, false, "panic: "+fmt.Sprint(r)
+			}
+		}()
+		out.AgainRun, out.AgainSame = true, true
+		differ := func(what string, a, b interface{}) {
+			if out.AgainSame && fmt.Sprint(a) != fmt.Sprint(b) {
+				out.AgainSame = false
+				out.AgainNote = fmt.Sprintf("%s: first connect %v, second connect %v", what, a, b)
+			}
+		}
+		agent2 := [3]int64{int64(info.AgentEventLimits.SpanEventConfig.Limit), int64(info.AgentEventLimits.LogEventConfig.Limit),
+			int64(info.AgentEventLimits.CustomEventConfig.Limit)}
+		differ("agent limits held by the daemon", out.Agent, agent2)
+		if raw, err := json.Marshal(info.ConnectPayloadInternal(1, nil)); err == nil {
+			if ms, adv, ok := c05AdvOf(raw); ok {
+				differ("advertised report period", out.AdvMs, ms)
+				differ("advertised limits", out.Adv, adv)
+			}
+		}
+		reply2, err := parseConnectReply([]byte(c.Reply))
+		if err != nil {
+			differ("connect reply parses", true, false)
+			return
+		}
+		app2 := &App{info: info, connectReply: reply2}
+		processLogEventLimits(app2)
+		hv2 := NewHarvest(time.Now(), app2.connectReply.EventHarvestConfig.EventConfigs)
+		differ("reservoir capacities", out.Caps, c05Caps(hv2))
 	}()
 	return
 }
